@@ -1075,6 +1075,13 @@ class World:
             return False
         return not self.buffered()
 
+    def failed_task(self):
+        """Tag of the first aiortc task that ended with an exception other than a connection error (diagnosis only)."""
+        for f in self.loop.task_failures:
+            if "aiortc" in f["where"] and not isinstance(f["exc"], ConnectionError):
+                return "task-ended-with:" + exc_tag(f["exc"])
+        return None
+
     def diagnose_stall(self):
         """Cause tag for a C02 stall, from the anchors (diagnosis only)."""
         for side in "AB":
@@ -1083,6 +1090,9 @@ class World:
         for u in self.loop.unhandled:
             if u.get("exc") is not None:
                 return "unhandled-exception-in-callback:" + exc_tag(u["exc"])
+        t = self.failed_task()
+        if t:
+            return t
         try:
             for side in "AB":
                 peer = "B" if side == "A" else "A"
@@ -1185,7 +1195,8 @@ class World:
         elif any(any(q) for q in self.queues().values()):
             self.violation("C02", "%s:not-quiescent:queues:%s" % (what, self.diagnose_stall()), repr(self.queues()))
         else:
-            self.violation("C02", "%s:not-quiescent:bufferedAmount" % what, repr(self.buffered()))
+            t = self.failed_task()
+            self.violation("C02", "%s:not-quiescent:bufferedAmount%s" % (what, ":" + t if t else ""), repr(self.buffered()))
 
     async def probe_burst(self):
         """After quiescence a fresh burst larger than the congestion window must
